@@ -45,7 +45,7 @@ def check(pid, engine, design, text, note, technique):
 import os
 checks = [
  check("C19", "jiffsim", "DESIGN.md section 3",
-  "Seeded search over schedules and fault sequences: each run executes the real TimeZoneDatabase code (zoneinfo, concatenated, bundled) on a real tmpfs directory with 1-4 caller threads and 0-2 disk-mutator threads under a harness-owned scheduler, a simulated monotonic clock that crosses the 300 s TTL exactly, and 13 fault kinds; the recorded history is checked against the recorded disk states (freshness within one TTL / after reset, canonical identity, completeness of available(), reuse of unchanged files, hostile names, no panic / deadlock / unbounded steps). Sampling, not proof: a clean batch is evidence that the property holds on the explored interleavings.",
+  "Seeded search over schedules and fault sequences: each run executes the real TimeZoneDatabase code (zoneinfo, concatenated, bundled) on a real tmpfs directory with 1-4 caller threads and 0-2 disk-mutator threads under a harness-owned scheduler (simulated threads are real OS threads, one running at a time), a simulated monotonic clock that crosses the 300 s TTL exactly, and 16 fault kinds (disk mutations incl. torn in-place rewrites and writer crashes, injected I/O errors, clock jumps, missing clock, restarts, resets); the recorded history is checked against the recorded disk states (freshness within one TTL / after reset, canonical identity, completeness of available(), reuse of unchanged files, hostile names, no panic / deadlock / unbounded steps). Sampling, not proof: a clean batch is evidence that the property holds on the explored interleavings.",
   "Trusted: std::fs + kernel tmpfs, std RwLock, Arc, jiff's in-memory TZif parser as the reference for 'which zone do these bytes denote'. Assumes A1-A8 of DESIGN.md section 7 (notably: every content change changes the mtime). Code between two cfg(jiff_verif) sites is atomic in the simulation. EIO/EINTR/short reads and allocation failure are not injected.",
   "deterministic simulation with fault injection (seeded scheduler + simulated clock + faulted tmpfs, history oracle)"),
 ]
@@ -69,7 +69,7 @@ manifest = {
  },
  "engines": [
    {"name": "jiffsim", "path": "/verif/sim", "serves_properties": [c["property_id"] for c in checks],
-    "kind_free_text": "deterministic simulator: harness-owned seeded scheduler (random / PCT / explicit replay) driving shuttle coroutines, simulated monotonic clock, real std::fs on tmpfs with an inode-aware shadow model, fault injection, history oracles, delta-debugging minimiser, replay files"},
+    "kind_free_text": "deterministic simulator: harness-owned seeded scheduler (random / PCT / explicit replay) handing a baton between real OS threads at the cfg(jiff_verif) sites (exactly one simulated thread runs at a time), simulated monotonic clock, seeded I/O error injection, real std::fs on tmpfs with an inode-aware shadow model, fault injection, history oracles, delta-debugging minimiser, replay files"},
  ],
  "checks": checks,
  "not_applicable": [{"property_id": k, "reason": v} for k, v in sorted(NA.items())],
